@@ -12,6 +12,8 @@ From NextestModel Require gen.GenGlue.
 From NextestModel Require Base.Str Model.Junit.
 From NextestModel Require Model.Dispatcher Model.Broadcast Proofs.Broadcast.
 From NextestModel Require Model.Overrides.
+From NextestModel Require Model.SignalNames Proofs.SignalNames.
+From NextestModel Require Model.DisplaySetting Proofs.DisplaySetting.
 From NextestModel Require Model.Filter Model.FutureQueue Model.Unit Model.Run Model.CliRun Model.ExecuteStream Proofs.ExecuteStream.
 Import ListNotations.
 Open Scope N_scope.
@@ -21,6 +23,9 @@ Module MJ := NextestModel.Model.Junit.
 Module MFl := NextestModel.Model.Filter.
 Module MD := NextestModel.Model.Dispatcher.
 Module MO := NextestModel.Model.Overrides.
+Module MSig := NextestModel.Model.SignalNames.
+Module MDs := NextestModel.Model.DisplaySetting.
+Module PDs := NextestModel.Proofs.DisplaySetting.
 Module MBc := NextestModel.Model.Broadcast.
 Module PBc := NextestModel.Proofs.Broadcast.
 Module ME := NextestModel.Model.ExecuteStream.
@@ -442,4 +447,63 @@ Proof.
   unfold gen_loop_body, settings_tuple, first_wins.
   destruct (MO.filter_of o) as [f|]; [destruct (MO.e_filter e f id)|]; destruct h, ht, tg, host;
     timeout 60 (bridge_norm; split_tuple; repeat (bridge_case; cbv beta iota); reflexivity).
+Qed.
+
+(* ---------------------------------------------------------------- signal_str (Model/SignalNames.v, C03) *)
+(* == block signal_str == *)
+(* every name the source's number -> name table gives is the platform's (Linux x86_64) name of that number; numbers the
+   source leaves unnamed are printed as numbers *)
+Lemma gen_signal_str_is_model :
+  forall n s, G.signal_str n = Some s -> MSig.linux_signal_name n = Some s.
+Proof.
+  intros n s. destruct n as [|p|p]; [discriminate| |discriminate].
+  do 6 (try destruct p as [p|p|]); cbv; intros H; first [discriminate H | exact H].
+Qed.
+Lemma gen_signal_str_names_right : forall n, MSig.names_right G.signal_str n = true.
+Proof.
+  intros n. unfold MSig.names_right. destruct (G.signal_str n) as [s|] eqn:E; [|reflexivity].
+  rewrite (gen_signal_str_is_model n s E). apply String.eqb_refl.
+Qed.
+
+(* ---------------------------------------------------------------- the displayer's output setting (Model/DisplaySetting.v, C06) *)
+(* == block display_setting (needs conv_junit) == *)
+Definition display_to_model (d : G.TestOutputDisplay) : MDs.display :=
+  match d with
+  | G.TestOutputDisplay_Immediate => MDs.DImmediate
+  | G.TestOutputDisplay_ImmediateFinal => MDs.DImmediateFinal
+  | G.TestOutputDisplay_Final => MDs.DFinal
+  | G.TestOutputDisplay_Never => MDs.DNever
+  end.
+(* the setting that governs a finished test: forced over resolved, success-output iff the last attempt passed *)
+Lemma gen_display_finished_setting_is_model :
+  forall r u s f,
+    display_to_model (G.display_finished_setting (result_of_junit r) u s f) =
+    MDs.setting_for (MDs.EkFinished (MJ.jis_success r))
+      (option_map display_to_model (G.UnitOutputReporter_force_success_output u))
+      (option_map display_to_model (G.UnitOutputReporter_force_failure_output u))
+      (display_to_model s) (display_to_model f).
+Proof. bridge. Qed.
+(* the setting that governs a failed attempt that will be retried: forced failure-output over the resolved one *)
+Lemma gen_display_retry_setting_is_model :
+  forall u s f,
+    display_to_model (G.display_retry_setting u f) =
+    MDs.setting_for MDs.EkAttemptWillRetry
+      (option_map display_to_model (G.UnitOutputReporter_force_success_output u))
+      (option_map display_to_model (G.UnitOutputReporter_force_failure_output u))
+      (display_to_model s) (display_to_model f).
+Proof. bridge. Qed.
+Lemma gen_display_is_immediate_is_model :
+  forall d, G.TestOutputDisplay_is_immediate d = MDs.is_immediate (display_to_model d).
+Proof. bridge. Qed.
+(* both, in the property's words: a forced value governs whatever the event *)
+Lemma gen_display_forced_wins :
+  forall (u : G.UnitOutputReporter) (s f v : G.TestOutputDisplay),
+    (G.UnitOutputReporter_force_failure_output u = Some v -> G.display_retry_setting u f = v) /\
+    (forall r, G.UnitOutputReporter_force_failure_output u = Some v -> MJ.jis_success r = false ->
+               G.display_finished_setting (result_of_junit r) u s f = v) /\
+    (forall r, G.UnitOutputReporter_force_success_output u = Some v -> MJ.jis_success r = true ->
+               G.display_finished_setting (result_of_junit r) u s f = v).
+Proof.
+  intros u s f v. destruct u as [fs ff de]. cbn [G.UnitOutputReporter_force_failure_output G.UnitOutputReporter_force_success_output].
+  repeat split; intros; subst; try (destruct r as [| |[] []| |]; try discriminate); bridge.
 Qed.
